@@ -67,7 +67,7 @@ pub struct NewSpec {
     pub full: bool,
     pub fdt_car: (bool, u64),
     pub fdt_dur: u64,
-    pub start_id: u32,
+    pub start_id: u64,
     pub il: u8,
     pub efdt: u16,
     pub queues: Vec<(u32, u32)>,
@@ -299,7 +299,7 @@ fn rand_new(rng: &mut Rng) -> NewSpec {
         full: rng.bool(),
         fdt_car: (rng.bool(), *rng.pick(&[0, US, MS, S, 3600 * S])),
         fdt_dur: *rng.pick(&[S, 5 * S, 20 * S, 60 * S, 3600 * S]),
-        start_id: *rng.pick(&[1u32, 0, 0xFFFFE, 0xFFFFF, 77, 4242]),
+        start_id: *rng.pick(&[1u64, 0, 0xFFFFE, 0xFFFFF, 77, 4242]),
         il: rng.range(1, 4) as u8,
         efdt: *rng.pick(&[200u16, 500, 1400]),
         queues,
@@ -661,6 +661,20 @@ fn zero_fdt_duration_case(r: &mut Runner) {
     }
 }
 
+/// `fdt_start_id = u32::MAX`: `fdtid + 1` in `Fdt::publish` (repaired: wrapping_add)
+fn start_id_max_case(r: &mut Runner) {
+    for full in [true, false] {
+        r.begin(&format!("startid-max-{}", full as u8));
+        let cfg = NewSpec { full, fdt_car: (false, S), fdt_dur: 3600 * S, start_id: 4294967295, il: 1, efdt: 1400, queues: vec![(0, 1)] };
+        r.op(cfg.line());
+        r.op(AddSpec::simple(0, 2).line());
+        r.op(format!("sched publish {}", r.now));
+        r.read_until_none(50);
+        r.drain();
+        r.finish();
+    }
+}
+
 pub fn run(ctx: &mut Ctx, _eng: &mut dyn Engine) {
     let thorough = ctx.tier_thorough;
     let seed = ctx.seed;
@@ -674,6 +688,7 @@ pub fn run(ctx: &mut Ctx, _eng: &mut dyn Engine) {
     let mut r = Runner::new(ctx);
     degenerate_cases(&mut r);
     zero_fdt_duration_case(&mut r);
+    start_id_max_case(&mut r);
     removal_cases(&mut r, thorough);
     grid_cases(&mut r, &mut rng, thorough);
     timing_cases(&mut r, &mut rng, if thorough { 3000 } else { 300 });
